@@ -14,7 +14,7 @@ LEVEL = "exploration"
 RULE = (
     "cases = (configuration with html=False: preset x rule subset x typographer/breaks/xhtmlOut/langPrefix/quotes/"
     "inline_definitions/store_labels values incl. hostile langPrefix and quote strings, optional stub linkifier; source) from "
-    "W-soup/W-gram/W-corpus(xss.md, html fixtures)/W-unicode plus metacharacter-injection templates for every render path; "
+    "W-soup/W-gram/W-corpus(xss.md, html fixtures)/W-unicode, per-process instance histories (another instance of the preset had html switched on via constructor/configure/set/assignment; a fresh html-off preset instance must still escape) plus metacharacter-injection templates for every render path; "
     "oracle = strict total lexer accepting only the renderer's own tag/attribute vocabulary with &<>\" escaped and stack discipline. "
     "Non-trivial = output containing >=1 attribute or >=1 escaped metacharacter; distinct by (conf id, source)."
     " Also: the boundary-value catalogue, the W-path families and every sequence of <=5 delimiter words for 8 pairs of delimiter kinds (tags must never cross)."
@@ -126,7 +126,7 @@ def history_case(ctx, case):
         other.configure(preset, {"html": True})
     elif route == "set":
         other = MarkdownIt(preset)
-        other.set({"html": True})
+        other.set({**dict(other.options), "html": True})   # set() replaces the options wholesale
     else:
         other = MarkdownIt(preset)
         other.options["html"] = True
